@@ -237,6 +237,12 @@ where
     pub fn buildhasher(&self) -> &B {
         self.builder.buildhasher()
     }
+
+    /// Verification hook: the `m` stored bits.
+    #[cfg(feature = "verif")]
+    pub fn verif_bits(&self) -> Vec<bool> {
+        (0..self.bs.len()).map(|i| self.bs[i]).collect()
+    }
 }
 
 impl<T, B> Filter<T> for BloomFilter<T, B>
